@@ -43,6 +43,12 @@ Row14(a, b, c, x, y) ==
   LET A == M13(a)  Bb == M13(b)  C == M13(c) IN
   IF ~(A.ok /\ Bb.ok /\ C.ok) \/ Abs(x) > 2000 \/ Abs(y) > 2000 THEN [ok |-> FALSE, v |-> 0]
   ELSE [ok |-> TRUE, v |-> A.v * (2 * x + 1) + Bb.v * (2 * y + 1) + 2 * C.v]
+(* the coordinate in units of 2^-12 without the magnitude bound of Row12 (for the whole-unit radial case) *)
+RowBig(a, b, c, x, y) ==
+  LET A == M13(a)  Bb == M13(b)  C == M13(c) IN
+  IF ~(A.ok /\ Bb.ok /\ C.ok) \/ Abs(x) > 2000 \/ Abs(y) > 2000 THEN [ok |-> FALSE, v |-> 0]
+  ELSE LET g26 == A.v * (2 * x + 1) + Bb.v * (2 * y + 1) + 2 * C.v IN
+       IF g26 % 4 = 0 THEN [ok |-> TRUE, v |-> g26 \div 4] ELSE [ok |-> FALSE, v |-> 0]
 FlatStops(ev) == \A i \in 1..Len(ev.stops) : ev.stops[i].c = ev.stops[1].c
 
 (* spread rules for an offset v + (far translation) *)
@@ -88,7 +94,23 @@ JudgePix(ev) ==
              k == IF u = -1 THEN 0 ELSE Slack(S, u) IN
          IF \A ch \in 1..4 : Abs(ev.got[ch] - E[ch]) <= k THEN "ok" ELSE "linear gradient colour"
   ELSE
-    IF ~gx.ok \/ ~gy.ok \/ gx.far # 0 \/ gy.far # 0 \/ Abs(gx.v) > 32000 \/ Abs(gy.v) > 32000 THEN "unjudged"
+    IF ~gx.ok \/ ~gy.ok \/ gx.far # 0 \/ gy.far # 0 \/ Abs(gx.v) > 32000 \/ Abs(gy.v) > 32000 THEN
+       \* far from the centre: decided only where both gradient-space coordinates are whole units and the distance is a
+       \* whole number too (Pythagorean points): the offset is then exactly that integer
+       LET bx == RowBig(ev.m[1], ev.m[2], ev.m[3], ev.x, ev.y)
+           by == RowBig(ev.m[4], ev.m[5], ev.m[6], ev.x, ev.y) IN
+       IF ~(bx.ok /\ by.ok /\ bx.v % T12 = 0 /\ by.v % T12 = 0 /\ Abs(bx.v) <= 8192000 /\ Abs(by.v) <= 8192000) THEN "unjudged"
+       ELSE LET X == bx.v \div T12   Y == by.v \div T12
+                N == X * X + Y * Y
+                R == ISqrt(N) IN
+            IF R * R # N THEN "unjudged"
+            ELSE LET u == IF R = 0 THEN 0 ELSE
+                          CASE ev.spread = 1 -> T12
+                            [] ev.spread = 2 -> (IF R % 2 = 0 THEN 0 ELSE T12)
+                            [] ev.spread = 3 -> (IF R = 1 THEN T12 ELSE 0)
+                            [] OTHER -> (IF R = 1 THEN T12 ELSE -1)
+                     E == IF u = -1 THEN << 0, 0, 0, 0 >> ELSE ColorAt(S, u) IN
+                 IF \A ch \in 1..4 : Abs(ev.got[ch] - E[ch]) <= 0 THEN "ok" ELSE "radial gradient colour (whole-number distance)"
     ELSE LET n  == gx.v * gx.v + gy.v * gy.v
              s  == ISqrt(n)
              u0 == Clamp(ev.spread, s)
@@ -114,7 +136,7 @@ JudgeCfg(ev) ==
       v  == [i \in 1..4 |-> AsScaled(ev.vb[i], 6)]
       dx == ev.rect[3] - ev.rect[1]   dy == ev.rect[4] - ev.rect[2]
       wx == v[3].k - v[1].k           wy == v[4].k - v[2].k
-      lat == /\ \A i \in 1..6 : a[i].ok /\ Abs(a[i].k) <= 65536
+      lat == /\ \A i \in 1..6 : a[i].ok /\ Abs(a[i].k) <= (IF i \in {3, 6} THEN 4194304 ELSE 65536)   \* |linear| <= 1, |translation| <= 64
              /\ \A i \in 1..4 : v[i].ok /\ Abs(v[i].k) <= 8192
              /\ wx > 0 /\ wy > 0 /\ dx > 0 /\ dy > 0
              /\ (dx * 64) % wx = 0 /\ (dy * 64) % wy = 0 /\ IsPow2((dx * 64) \div wx) /\ IsPow2((dy * 64) \div wy)
@@ -138,7 +160,7 @@ JudgePixR(ev) ==
       v  == [i \in 1..4 |-> AsScaled(ev.vb[i], 6)]
       dx == ev.rect[3] - ev.rect[1]   dy == ev.rect[4] - ev.rect[2]
       wx == v[3].k - v[1].k           wy == v[4].k - v[2].k
-      lat == /\ \A i \in 1..6 : a[i].ok /\ Abs(a[i].k) <= 65536
+      lat == /\ \A i \in 1..6 : a[i].ok /\ Abs(a[i].k) <= (IF i \in {3, 6} THEN 4194304 ELSE 65536)   \* |linear| <= 1, |translation| <= 64
              /\ \A i \in 1..4 : v[i].ok /\ Abs(v[i].k) <= 8192
              /\ wx > 0 /\ wy > 0 /\ dx > 0 /\ dy > 0
              /\ (dx * 64) % wx = 0 /\ (dy * 64) % wy = 0 /\ IsPow2((dx * 64) \div wx) /\ IsPow2((dy * 64) \div wy)
@@ -155,6 +177,7 @@ JudgePixR(ev) ==
           IF j \in {"ok", "unjudged"} THEN j ELSE "image handed to Draw for a gradient paint: " \o j
 
 Judge(ev) == CASE ev.ev = "pix" -> JudgePix(ev) [] ev.ev = "cfg" -> JudgeCfg(ev) [] ev.ev = "pixr" -> JudgePixR(ev)
+               [] ev.ev = "nodraw" -> "a path painted with a valid gradient was not drawn exactly once"
                [] OTHER -> "unknown event"
 
 Init == l \in 1..Len(Trace)
